@@ -337,7 +337,7 @@ class CircuitDAG(CircuitBase):
             remaining_nodes = remaining_nodes.intersection(
                 set(self.node_dict.get(label, []))
             )
-        return list(remaining_nodes)
+        return self._ordered_node_list(remaining_nodes)
 
     def get_node_exclude_labels(self, labels):
         """
@@ -352,7 +352,23 @@ class CircuitDAG(CircuitBase):
         exclusion_nodes = set()
         for label in labels:
             exclusion_nodes = exclusion_nodes.union(set(self.node_dict[label]))
-        return list(all_nodes - exclusion_nodes)
+        return self._ordered_node_list(all_nodes - exclusion_nodes)
+
+    @staticmethod
+    def _ordered_node_list(nodes):
+        """
+        Turn a set of node IDs into a list whose order does not depend on the interpreter's string hash seed:
+        the operation nodes (integer IDs, whose set order is deterministic) first, then the input / output nodes
+        (string IDs) in sorted order. Iterating a set that contains strings is not reproducible between runs.
+
+        :param nodes: a set of node IDs
+        :type nodes: set
+        :return: the node IDs as a list
+        :rtype: list
+        """
+        int_nodes = set(node for node in nodes if not isinstance(node, str))
+        str_nodes = sorted(node for node in nodes if isinstance(node, str))
+        return list(int_nodes) + str_nodes
 
     def remove_op(self, node):
         """
